@@ -901,6 +901,10 @@ impl<'a, R: Relocation> Modifier<'a, R> {
         // remove any old managed relocations from what we overwrote
         self.old_managed.remove_between(self.previous_asmoffset, self.asmoffset);
 
+        // managed relocations emitted by this modifier up to here are tracked like any other from now on,
+        // so they are forgotten again if a later part of this session overwrites them
+        self.old_managed.append(&mut self.new_managed);
+
         // set the cursor position
         self.asmoffset = offset.0;
         self.previous_asmoffset = offset.0;
@@ -937,6 +941,12 @@ impl<'a, R: Relocation> Modifier<'a, R> {
         let statics: Vec<_> = self.relocs.take_statics().collect();
         let dynamics: Vec<_> = self.relocs.take_dynamics().collect();
 
+        // The bytes written by this modifier are in the buffer, whatever happens next. Forget the
+        // managed relocations they replaced and track the ones they contain.
+        self.old_managed.remove_between(self.previous_asmoffset, self.asmoffset);
+        self.previous_asmoffset = self.asmoffset;
+        self.old_managed.append(&mut self.new_managed);
+
         // If we accrued any errors while assembling before, emit them now.
         if let Some(e) = self.error.take() {
             return Err(e);
@@ -960,7 +970,7 @@ impl<'a, R: Relocation> Modifier<'a, R> {
             cache_control::synchronize_icache(buf);
 
             if loc.needs_adjustment() {
-                self.new_managed.add(loc);
+                self.old_managed.add(loc);
             }
         }
 
@@ -976,14 +986,9 @@ impl<'a, R: Relocation> Modifier<'a, R> {
             cache_control::synchronize_icache(buf);
 
             if loc.needs_adjustment() {
-                self.new_managed.add(loc);
+                self.old_managed.add(loc);
             }
         }
-
-        self.old_managed.remove_between(self.previous_asmoffset, self.asmoffset);
-        self.previous_asmoffset = self.asmoffset;
-
-        self.old_managed.append(&mut self.new_managed);
 
         Ok(())
     }
